@@ -8,7 +8,7 @@ From Coq Require Import List Arith.
 From PM Require Import Model.Data Model.Mark Model.Tree Model.Step Spec.Tokens
   Proofs.ReplaceValid Proofs.SliceSides Proofs.TokenBasics Proofs.ReplaceTokens Proofs.SliceShape Proofs.TokenLaws
   Proofs.AroundLaws Proofs.ContentBetween Proofs.StructProofs.
-From PM Require Import Model.Resolve Model.StructOps Proofs.HelperRanges.
+From PM Require Import Model.Resolve Model.StructOps Proofs.HelperRanges Proofs.HelperSafe.
 Import ListNotations.
 
 Theorem C12_structure_only_step_keeps_leaves : forall s from to sl structure doc d',
@@ -93,3 +93,33 @@ Theorem C12_insert_point_in_range : forall s doc pos ty p,
   insert_point s doc pos ty = Ok (Some p) -> p <= frag_size s (node_content doc).
 Proof. exact insert_point_in_range. Qed.
 Print Assumptions C12_insert_point_in_range.
+
+(* ---- the helpers never crash on in-range input ----
+   on a VALID document, for every position of the document (every depth >= 1, direction, node type), the helpers
+   return an answer - no exception of any class.  can_join and join_point cut the text node around the position; for
+   them the position must not split a surrogate pair ([Boundary]: node_before / node_after are defined there - every
+   position with text offset 0 is one).  (lift_target takes a NodeRange built by block_range; drop_point and
+   find_wrapping on ranges are evaluated per case.) *)
+Theorem C12_can_split_never_crashes : forall s doc pos depth,
+  check s doc = true -> is_elem doc -> pos <= frag_size s (node_content doc) -> 1 <= depth ->
+  exists answer, can_split s doc pos depth = Ok answer.
+Proof. exact can_split_never_crashes. Qed.
+Print Assumptions C12_can_split_never_crashes.
+
+Theorem C12_can_join_never_crashes : forall s doc pos r,
+  check s doc = true -> is_elem doc -> resolve s doc pos = Ok r -> Boundary s r ->
+  exists answer, can_join s doc pos = Ok answer.
+Proof. exact can_join_never_crashes. Qed.
+Print Assumptions C12_can_join_never_crashes.
+
+Theorem C12_join_point_never_crashes : forall s doc pos dir r,
+  check s doc = true -> is_elem doc -> resolve s doc pos = Ok r -> Boundary s r ->
+  exists answer, join_point s doc pos dir = Ok answer.
+Proof. exact join_point_never_crashes. Qed.
+Print Assumptions C12_join_point_never_crashes.
+
+Theorem C12_insert_point_never_crashes : forall s doc pos ty,
+  check s doc = true -> is_elem doc -> pos <= frag_size s (node_content doc) ->
+  exists answer, insert_point s doc pos ty = Ok answer.
+Proof. exact insert_point_never_crashes. Qed.
+Print Assumptions C12_insert_point_never_crashes.
